@@ -934,3 +934,25 @@ def rad2orb_offsets(case, ctx):
 def asan_rad2orb(case, ctx):
     ctx.nontrivial([case["elem"], case["lmax"], case["nalpha"], case["offset"], case["stride"], case["rad2orb"]])
     _rad2orb_body(case, ctx)
+
+
+# ------------------------------------------------------------------------------------------------
+# C evaluators under the sanitizer build (the cases and oracles of C11's evaluator sub-checks, re-run where a write
+# behind a scratch or output buffer is a report rather than silent corruption)
+from props import c11 as _c11  # noqa: E402
+
+
+@subcheck("C18", "asan_evaluators", lambda: st.one_of(_c11.st_c_spin().map(lambda c: {"which": "spin", "case": c}),
+                                                      _c11.st_c_rbf().map(lambda c: {"which": "rbf", "case": c}),
+                                                      _c11.st_c_antisym().map(lambda c: {"which": "antisym", "case": c})),
+          quick=300, thorough=4000, variant="asan",
+          rule="RBFEvaluator / SpinRBFEvaluator / AntisymRBFEvaluator calls as generated for C11 (all index subsets and "
+               "slices, 2-D and 3-D inputs, passed and default output arrays) in a process with the ASan+UBSan build "
+               "preloaded: any sanitizer report on an accepted call is a violation; the value/gradient oracles of C11 run too; "
+               "non-trivial = the call sequence returned normally",
+          tolerances={})
+def asan_evaluators(case, ctx):
+    fn = {"spin": _c11.c_spin, "rbf": _c11.c_rbf, "antisym": _c11.c_antisym}[case["which"]]
+    ctx.event("evaluator=" + case["which"])
+    fn(case["case"], ctx)
+    ctx.nontrivial([case["which"], case["case"].get("n1"), case["case"].get("form", case["case"].get("via")), case["case"].get("nctrl")])
